@@ -84,6 +84,16 @@ impl CommandState {
 
 		trace!(?command, "spawning command");
 
+		#[cfg(all(watchexec_verif, not(test)))]
+		if let Some(res) = crate::verif::spawn_override(&command, &mut spawnable) {
+			let child = res?;
+			*self = Self::Running {
+				child,
+				started: Instant::now(),
+			};
+			return Ok(true);
+		}
+
 		#[cfg(test)]
 		let child = super::TestChild::new(command)?;
 
